@@ -100,7 +100,7 @@ def PtSt.kids : PtSt → List (Nat × PtSt) | .mk _ k => k
 def PtSt.kid (p : PtSt) (l : Nat) : PtSt :=
   match p.kids.lookup l with | some k => k | none => .mk 0 []
 def PtSt.setPt (p : PtSt) (l : Nat) : PtSt := .mk l p.kids
-def PtSt.setKid (p : PtSt) (l : Nat) (k : PtSt) : PtSt := .mk p.pt ((l, k) :: p.kids)
+def PtSt.setKid (p : PtSt) (l : Nat) (k : PtSt) : PtSt := .mk p.pt ((l, k) :: p.kids.filter (fun x => x.1 != l))
 
 structure St where
   var : Nat → Nat
